@@ -263,7 +263,15 @@ class JsonSchemaParser:
                 constraints.update(min_length=min_properties)
             if max_properties:
                 constraints.update(max_length=max_properties)
-            return Rule.annotate(dict, key_type, Any, constraints=constraints)
+            value_type = Any
+            if additional_properties is False:
+                # no declared property and no additional one: only the empty object
+                constraints.pop('max_length', None)
+                constraints.pop('min_length', None)
+                constraints.update(length=0)
+            elif isinstance(additional_properties, dict):
+                value_type = self.parse_type(additional_properties)
+            return Rule.annotate(dict, key_type, value_type, constraints=constraints)
 
         attrs = {}
         annotations = {}
